@@ -156,8 +156,8 @@ CLAIMS = {
         "at a solver-chosen interleaving position; compared step by step: observation, reward, truncation, every "
         "agent's action and response status, identifier-normalised Simulation.describe_state(). (c) identity walk "
         "over the object graphs of two games built from the same scenario: no shared mutable container or component.",
-        "note": "Bounds: k=1 (quick) / 2 (thorough) dirtying actions, 2-step suffix; generated scenarios only (the "
-        "episode-list scheduler with on-disk variants is not covered). All inputs are finite choices - the solver's "
+        "note": "Bounds: k=1 (quick) / 2 (thorough) dirtying actions, 2-step suffix; generated scenarios, plus the shipped "
+        "episode-scheduled directories (each episode of a long-lived environment vs a fresh build, up to 11 resets). All inputs are finite choices - the solver's "
         "role is the exhaustive enumeration. One recorded finding (class-level NMNE configuration) is excluded by its "
         "predicate and re-demonstrated on every run. Trusted: CrossHair/z3, identifier normalisation.",
         "technique": TECH_S,
@@ -232,6 +232,41 @@ CLAIMS = {
         "note": "The claim starts at the parsed dict (PyYAML's C parser is outside the encoding); all inputs are finite "
         "choices - the solver enumerates the combinations (4 bits coupled pairwise per quick job, all 2^11 in thorough). "
         "Episode-list schedules and plugin node types are not covered. Trusted: CrossHair/z3, the reference inventory.",
+        "technique": TECH_S,
+    },
+    "C10": {
+        "engine": "symex+py2smt",
+        "text": "Real graph_has_cycle and topological_sort exhausted over every directed graph on up to 4 nodes (self-loops "
+        "included) with every declaration order; the real PrimaiteGame.from_config / setup_reward_sharing / "
+        "update_agents with real agents, RewardFunction and SharedReward explored for every sharing graph on up to 4 "
+        "agents (cyclic graphs refused at load; for acyclic graphs each agent's reward = base value + weight x the "
+        "SAME-step reward of each shared agent, from arbitrary stale rewards and totals with unbounded solver "
+        "component values; totals grow by exactly the step reward); RewardFunction.update is the weighted sum for up to "
+        "4 components with weights from a covering set, and by SMT over all finite IEEE doubles (n <= 3) equals the "
+        "left-to-right fold, ignores zero-weight components and stays finite; every built-in component's sticky / "
+        "non-sticky step from an arbitrary memory value over all request shapes and response statuses; a real client/"
+        "server scenario run for 2-3 steps over all action sequences, sticky settings and declaration orders incl. "
+        "the value returned by env.step and the episode total at reset.",
+        "note": "Floats are reals in Engine S; IEEE behaviour decided only for the update kernel (n <= 3; the n = 3 zero-"
+        "weight and finiteness results rest on single-operation lemmas composed by an induction argued in prose). "
+        "Config loading and the simulation run concretely per path, enumerated by the solver. Bounds: 4 agents, 3 "
+        "steps, at most 2 codes / history entries. Trusted: CrossHair/z3, py2smt (validated on 120 points per run).",
+        "technique": "symbolic execution of the real code (CrossHair+z3) + AST-to-SMT translation of the weighted-sum kernel (z3 FP64), counterexamples replayed",
+    },
+    "C16": {
+        "text": "Bounded-exhaustive symbolic execution of the real UserManager / UserSessionManager / Terminal code on two "
+        "connected real nodes against a reference session model written from the statement: an inductive step from "
+        "every pre-state of a written representation invariant (up to 3 remote sessions plus a local session, 3 "
+        "accounts with solver-chosen admin/disabled flags, unbounded idle times, time-outs, session limit and clock "
+        "jump, every node and service operating-state member, 3 desynchronised client/server views, 45 (quick) / 85 "
+        "(thorough) operations through the request API) and all operation sequences of length 2-4 from the real "
+        "initial state; compared after every operation: describe_state() of the session manager, the users table, "
+        "the enabled-admin invariant, the session limit, last-active steps, the server terminal's connection table, "
+        "the response status and the effect of the remote command (a folder created on the target).",
+        "note": "Account names, passwords and session ids are concrete; sequences deeper than 4 rely on the inductive step "
+        "and its hand-written invariant. Sessions surviving a node reboot / terminal restart are tolerated (the "
+        "statement lists only logout, time-out and password change as ending events) but no login or command may "
+        "succeed while a node is not ON or the server terminal is not RUNNING. Trusted: CrossHair/z3.",
         "technique": TECH_S,
     },
 }
